@@ -6,6 +6,7 @@
 package world
 
 import (
+	authtypes "github.com/cosmos/cosmos-sdk/x/auth/types"
 	. "kavaverif/lib"
 
 	"crypto/sha256"
@@ -755,8 +756,21 @@ func (w *World) GenTx(r *Rng, tApp app.TestApp, used map[int]bool) ([]byte, stri
 	}
 	switch kind {
 	case 0:
-		m := banktypes.NewMsgSend(A, other, cs(c([]string{"ukava", "bnb", "usdx", "xrp"}[r.Intn(4)], amt(r, 1_000_000_000))))
-		msg, desc = m, "bank.send"
+		to, d := other, "bank.send"
+		if r.Chance(1, 4) {
+			// a plain transfer addressed to a module account: refused for every module account that is
+			// not explicitly allowed to receive funds (app.go loadBlockedMaccAddrs) — an accepted one
+			// puts coins into a module account behind the module's back (its solvency invariant breaks)
+			names := make([]string, 0, len(app.GetMaccPerms()))
+			for n := range app.GetMaccPerms() {
+				names = append(names, n)
+			}
+			sort.Strings(names)
+			n := names[r.Intn(len(names))]
+			to, d = authtypes.NewModuleAddress(n), "bank.send.to-module:"+n
+		}
+		m := banktypes.NewMsgSend(A, to, cs(c([]string{"ukava", "bnb", "usdx", "xrp"}[r.Intn(4)], amt(r, 1_000_000_000))))
+		msg, desc = m, d
 	case 1:
 		bal := tApp.GetBankKeeper().GetBalance(ctx, A, cdenom[ct]).Amount
 		max := int64(20_000_000_000)
